@@ -57,6 +57,19 @@ pub const FOCUS_FILL: Granularity = Granularity::Focus(
     ],
 );
 
+/// Focus on the validation / finality protocol: where attempts start, where validation claims are
+/// made (the claim-to-lock gap), where rewinds become visible and where dependencies are updated.
+pub const FOCUS_VALIDATION: Granularity = Granularity::Focus(
+    "focus-validation",
+    &[
+        grevm_verif_rt::pt::EXEC_BEGIN,
+        grevm_verif_rt::pt::VALIDATION_CLAIMED,
+        grevm_verif_rt::pt::DEP_UPDATE,
+        grevm_verif_rt::pt::REWIND_DONE,
+        grevm_verif_rt::pt::EXECUTION_CLAIMED,
+    ],
+);
+
 pub fn jobs(prop: &str, tier: Tier) -> Vec<Job> {
     match prop {
         "C01" => c01::jobs(tier),
